@@ -22,7 +22,7 @@ var debugWhy = os.Getenv("DPOSSTATE_WHY") != ""
 
 // Step is one entry of the plan.
 type Step struct {
-	Op string `json:"op"` // block | rollback | seek | reward
+	Op string `json:"op"` // block | rollback | seek | reward | ckpt | restart
 
 	// block
 	Txs  []TxD `json:"txs,omitempty"`
@@ -66,6 +66,12 @@ type run struct {
 	seekTaint       bool // a block was processed while a seek was outstanding (until the instance is replaced)
 	forcedInSpan    bool // a rolled-back block carried an InactiveArbitrators payload (pre-processed at height-1)
 	deepSingleCall  bool // the last rollback was one OnRollbackTo over more than one block (the node itself goes block by block)
+	// C23 (DPoS restart): the last saved checkpoint, the restarted node fed alongside
+	saved      *savedCkpt
+	shadow     *instance
+	shadowCtx  string
+	shadowLeft int
+	cmpAliased bool // the restored state held producers the live node shares between collections
 	// C28 bookkeeping of the previous state
 }
 
@@ -109,6 +115,7 @@ func execute(c *core.Ctx) {
 	defer func() {
 		w.inst.close()
 		w.twin.close()
+		r.shadow.close()
 	}()
 	c.SetSample(map[string]interface{}{"knobs": p.Knobs, "steps": len(p.Steps)})
 	for i, s := range r.steps {
@@ -123,6 +130,10 @@ func execute(c *core.Ctx) {
 			r.stepRollback(&s)
 		case "seek":
 			r.stepSeek(&s)
+		case "ckpt":
+			r.stepCkpt(&s)
+		case "restart":
+			r.stepRestart(&s)
 		case "reward":
 			if s.R != nil {
 				runRewardCase(c, p, s.R)
@@ -523,6 +534,7 @@ func (r *run) stepBlock(s *Step) {
 		c.Violate("C21", "twin", sg,
 			"height %d: panic on rolled-back instance=%v, on directly built twin=%v", h, pan, tpan)
 	}
+	r.shadowBlock(sb, pan != nil)
 	if pan != nil {
 		r.stop = true
 		c.Logf("B %d panic", h)
@@ -640,6 +652,11 @@ func (r *run) stepRollback(s *Step) {
 		return
 	}
 	// the simulated chain follows
+	r.saved = nil
+	if r.shadow != nil {
+		r.shadow.close()
+		r.shadow = nil
+	}
 	r.chain = r.chain[:target+1]
 	for hh := range r.ext {
 		if hh > target {
